@@ -325,7 +325,7 @@ class C15(Property):
                             out.append([{"part": "decomp", "filter": filt, "interp": 0, "shape": shape,
                                          "variant": variant, "module": module, "mode": mode, "d": dd,
                                          "palette": pp}])
-                        for sparse in (0, 1):
+                        for sparse in ((0, 1) if dd <= d else (0,)):
                             out.append([{"part": "decomp", "filter": filt, "interp": 1, "shape": shape,
                                          "variant": variant, "module": module, "mode": "inplace", "d": dd,
                                          "palette": pp, "sparse": sparse}])
@@ -367,7 +367,7 @@ class C15(Property):
                     for mode in ("inplace", "copy"):
                         out.append([{"part": "anchors-trie", "interp": 0, "shape": shape, "variant": variant,
                                      "module": module, "mode": mode, "d": dd, "palette": pp}])
-                    for sparse in (0, "subtree"):
+                    for sparse in ((0, "subtree") if dd <= d else (0,)):
                         out.append([{"part": "anchors-trie", "interp": 1, "shape": shape, "variant": variant,
                                      "module": module, "mode": "inplace", "d": dd, "palette": pp,
                                      "sparse": sparse}])
@@ -392,6 +392,17 @@ class C15(Property):
     def run(self, h, b):
         c = h[0]
         return getattr(self, "run_" + c["part"].replace("-", "_"))(c, b)
+
+    NON_VACUITY = ["flipped_chains", "double_flips", "decomposed", "left_composite", "untransformed_kept",
+                   "flattened", "compensated_components", "pattern_excluded_intermediate", "exact_compares",
+                   "tolerance_compares", "anchors_mapped", "slanted_advance_with_height", "added_under_flip",
+                   "numbered_ligature_anchors", "propagation_blocked_by_existing", "single_base_propagations"]
+
+    def finish(self, b, summary):
+        if b.get("only"):
+            return []
+        missing = [k for k in self.NON_VACUITY if not summary["counters"].get(k)]
+        return [violation("vacuous-exploration", {"counter": k}) for k in missing]
 
     # ---- decomposition / flattening -----------------------------------------------------------
     def run_decomp(self, c, b):
